@@ -16,7 +16,7 @@ import itertools
 import numpy as np
 
 from harness import tabutil as tu
-from harness.common import Driver, Result, err_class
+from harness.common import Driver, Result, err_class, impl_guard
 
 LEVEL = "proof"
 TRUSTED_BASE = [
@@ -56,7 +56,13 @@ def run(ctx, budget=1.0):
     # 1. enumeration
     rep = drv.ask("cliff.all24")
     model24 = [w.split(",") for w in rep["lists"].split("|")]
-    impl24 = [[c.__name__ for c in w] for w in ops.one_qubit_cliffords()]
+    try:
+        impl24 = [[c.__name__ for c in w] for w in ops.one_qubit_cliffords()]
+    except Exception as e:  # noqa: BLE001 — the enumeration is the subject of the property: raising is a violation, not a harness crash
+        res.violation(f"enumeration:raises:{err_class(e)}", "one_qubit_cliffords() raised", input={"call": "one_qubit_cliffords()"}, impl=repr(e)[:200])
+        res.extra["driver_lines"] = drv.n_lines
+        drv.close()
+        return res
     res.evaluations += 1
     if impl24 != model24:
         ok = len(impl24) == 24 and all(any(equiv_up_to_phase(mat_of(a), mat_of(b)) for b in impl24) for a in model24) and \
@@ -141,6 +147,9 @@ def run(ctx, budget=1.0):
         except ValueError:
             if is_cliff:
                 res.violation("find:clifford-rejected", "a Clifford unitary was rejected", input={"case": name})
+        except Exception as e:  # noqa: BLE001 — rejection is a ValueError; any other exception on a 2x2 unitary is the look-up failing
+            res.violation(f"find:raises:{err_class(e)}", "find_local_clifford_by_matrix raised something other than its ValueError rejection on a 2x2 unitary",
+                          input={"case": name, "matrix": str(np.round(u, 6).tolist())}, impl=repr(e)[:200])
         res.count("errors", "rejected" if not is_cliff else "accepted")
     for k in range(24):
         ph = np.exp(1j * rng.uniform(0, 2 * np.pi))
@@ -153,8 +162,9 @@ def run(ctx, budget=1.0):
         except Exception as e:  # noqa: BLE001
             res.violation(f"find:raises:{err_class(e)}", "find_local_clifford_by_matrix raised on a member times a phase", input={"member": impl24[k]})
     # 4. wrapper order in both backends
-    wrapper_order(res, impl24, cls)
-    res.exhaustive = True
+    with impl_guard(res, "wrapper", promise=True):
+        wrapper_order(res, impl24, cls)
+    res.exhaustive = not res.extra.get("streams_aborted")
     res.extra["driver_lines"] = drv.n_lines
     drv.close()
     return res
@@ -195,15 +205,19 @@ def wrapper_order(res, impl24, cls):
         for reg_type in ("e", "p"):
             res.evaluations += 1
             inp = {"wrapper": w, "on": reg_type, "noise_descriptor": vname}
-            c = CircuitDAG(n_emitter=1, n_photon=1, n_classical=0)
-            c.add(ops.Hadamard(register=0, reg_type="e"))
-            c.add(ops.Phase(register=0, reg_type="e"))
-            c.add(ops.CNOT(control=0, control_type="e", target=0, target_type="p"))
-            noise = mk(len(w))
-            if noise is None:
-                c.add(ops.OneQubitGateWrapper([cls[n] for n in w], register=0, reg_type=reg_type))
-            else:
-                c.add(ops.OneQubitGateWrapper([cls[n] for n in w], register=0, reg_type=reg_type, noise=noise))
+            try:
+                c = CircuitDAG(n_emitter=1, n_photon=1, n_classical=0)
+                c.add(ops.Hadamard(register=0, reg_type="e"))
+                c.add(ops.Phase(register=0, reg_type="e"))
+                c.add(ops.CNOT(control=0, control_type="e", target=0, target_type="p"))
+                noise = mk(len(w))
+                if noise is None:
+                    c.add(ops.OneQubitGateWrapper([cls[n] for n in w], register=0, reg_type=reg_type))
+                else:
+                    c.add(ops.OneQubitGateWrapper([cls[n] for n in w], register=0, reg_type=reg_type, noise=noise))
+            except Exception as e:  # noqa: BLE001 — building the wrapper on a valid register is part of the valid input
+                res.violation(f"wrapper:build:raises:{err_class(e)}", "constructing / adding a wrapper over the elementary gates raised", input=inp, impl=repr(e)[:200])
+                continue
             # reference: qubit order photon(0), emitter(1)
             n = 2
             rho = np.zeros((4, 4), dtype=complex)
@@ -220,9 +234,9 @@ def wrapper_order(res, impl24, cls):
             except Exception as e:  # noqa: BLE001
                 res.violation(f"wrapper:raises:{err_class(e)}", "compiling a wrapper raised", input=inp)
                 continue
-            if not np.allclose(dm, rho, atol=1e-9):
+            if np.shape(dm) != rho.shape or not np.allclose(dm, rho, atol=1e-9):
                 res.violation("wrapper:dm-order", "density-matrix backend does not apply the wrapper as the matrix product of its list", input=inp)
-            if not np.allclose(tu.dense_rho(st), rho, atol=1e-9):
+            if not (tu.is_binary(st) and st.n_qubits == n) or not np.allclose(tu.dense_rho(st), rho, atol=1e-9):
                 res.violation("wrapper:stabilizer-order", "stabilizer backend does not apply the wrapper as the matrix product of its list", input=inp)
             if len(w) >= 2:
                 res.nontrivial("wrapper", tuple(w), reg_type, vname)
